@@ -113,7 +113,34 @@ def _func_names(e):
     return out
 
 
+CROSS = {'agree': 0, 'cvc5_unknown': 0, 'disagree': 0}
+
+
 def check_valid(pc, formula, want_model=True, timeout_ms=None, second_backend=True):
+    """check_valid with the thorough tier's cross-examination: every obligation z3 proves is put to cvc5 as well (the very
+    query of the proving stage).  Agreement is recorded in the backend name ('z3+cvc5'); cvc5 finding that query
+    satisfiable is a checker error (one of the solvers or the encoding is wrong), never a silent pass."""
+    st, be, secs, model, solver = _check_valid(pc, formula, want_model, timeout_ms, second_backend)
+    if os.environ.get('PYVC_CROSS') and st == 'proved' and be == 'z3':
+        t0 = time.time()
+        try:
+            rc = run_cvc5(solver.to_smt2().replace('(check-sat)', ''), int(os.environ.get('PYVC_CROSS_TIMEOUT', '20')))
+        except Exception:
+            rc = 'unknown'
+        secs += time.time() - t0
+        if rc == 'unsat':
+            CROSS['agree'] += 1
+            be = 'z3+cvc5'
+        elif rc == 'sat':
+            CROSS['disagree'] += 1
+            st, be = 'error', 'z3 unsat / cvc5 sat'
+        else:
+            CROSS['cvc5_unknown'] += 1
+            be = 'z3 (cvc5: no answer)'
+    return st, be, secs, model, solver
+
+
+def _check_valid(pc, formula, want_model=True, timeout_ms=None, second_backend=True):
     """Is `formula` valid under the assumptions `pc`?  Returns (status, backend, seconds, model, solver)."""
     t0 = time.time()
     neg = z3.Not(formula)
@@ -343,11 +370,18 @@ class Contract:
         outcomes = I.explore(self.unit(I, index))
         results = []
         n_paths = len(outcomes)
+        uncovered = []
         for k, o in enumerate(outcomes):
             path_id = ''.join('T' if d else 'F' for d in o.decisions) or '-'
             I.st = o.state
             # obligations raised at call sites along the path
             fr = self.spec_frame(I, o)
+            okey = o.kind + (':' + o.value.cls if o.kind == 'raise' else '')
+            if (o.kind != 'end' and okey not in getattr(self, 'unclaimed_outcomes', {})
+                    and not any(cl.applies(o) for cl in self.clauses()) and not o.state.obligations):
+                # a way of leaving the unit about which the contract says nothing: the contract is too weak to notice a
+                # change of outcome structure (e.g. a function turned into a coroutine) -> checker error, not a pass
+                uncovered.append('%s path %s' % (o.kind, path_id))
             for cl in self.clauses():
                 if props is not None and not (cl.props & set(props)):
                     continue
@@ -394,7 +428,7 @@ class Contract:
         info = {'paths': n_paths, 'seconds': time.time() - t0, 'branch_checks': I.n_branch_checks,
                 'outcomes': [o.kind + (':' + o.value.cls if o.kind == 'raise' else '') +
                              (':%d' % getattr(o, 'yield_index', 0) if o.kind == 'yield' else '') for o in outcomes],
-                'dropped': sorted(I.dropped), 'cover': self.cover(outcomes)}
+                'dropped': sorted(I.dropped), 'cover': self.cover(outcomes), 'uncovered': uncovered}
         self.outcomes = outcomes
         return results, info
 
